@@ -9,7 +9,7 @@ suite = '--suite' in sys.argv
 dst = os.path.join('/verif/seeded', sid)
 os.makedirs(dst, exist_ok=True)
 for f in ('patch.diff', 'demo.py', 'notes.txt'):
-    if os.path.exists(os.path.join(src, f)):
+    if os.path.exists(os.path.join(src, f)) and os.path.abspath(src) != os.path.abspath(dst):
         shutil.copy(os.path.join(src, f), os.path.join(dst, f))
 meta = {'id': sid, 'property': prop, 'ran': []}
 wt = tempfile.mkdtemp(prefix='seed-ev-')
@@ -21,6 +21,8 @@ try:
     sh('git -C /repo worktree add -q --detach %s HEAD' % wt)
     os.makedirs(os.path.join(wt, 'seedx'))
     shutil.copy(os.path.join(dst, 'demo.py'), os.path.join(wt, 'seedx', 'demo.py'))
+    os.environ['TMPDIR'] = os.path.join(wt, '.tmp')
+    os.makedirs(os.environ['TMPDIR'], exist_ok=True)
     rc0, out0 = sh('/venv/bin/python seedx/demo.py', cwd=wt, timeout=600)
     rca, outa = sh('git apply %s' % os.path.join(dst, 'patch.diff'), cwd=wt)
     rc1, out1 = sh('/venv/bin/python seedx/demo.py', cwd=wt, timeout=600)
@@ -32,20 +34,14 @@ try:
     rcc, _ = sh('/venv/bin/python -c "import diskcache"', cwd=wt)
     meta['imports'] = rcc == 0
     if suite:
-        rcs, outs = sh('/venv/bin/python -m pytest -q -p no:cacheprovider --timeout=900 -n 8 2>&1 | grep -E "passed|failed" | tail -1', cwd=wt, timeout=1500)
+        rcs, outs = sh('/venv/bin/python -m pytest -q -p no:cacheprovider --timeout=900 -n 6 2>&1 | grep -E "passed|failed" | tail -1', cwd=wt, timeout=1500)
         meta['suite_with_change'] = outs.strip()
         meta['ran'].append('scratch worktree: pytest with the change applied -> %s' % outs.strip())
-finally:
-    sh('git -C /repo worktree remove --force %s' % wt)
-    shutil.rmtree(wt, ignore_errors=True)
-# checks against /repo with the patch applied
-rc, out = sh('git -C /repo status --porcelain')
-assert out.strip() == '', '/repo not clean: ' + out
-try:
-    rca, outa = sh('git -C /repo apply %s' % os.path.join(dst, 'patch.diff'))
-    assert rca == 0, outa
+    # every check against the changed tree (scratch worktree, evidence redirected: /repo and /verif/evidence untouched)
+    evd = tempfile.mkdtemp(prefix='seed-evid-')
     t = time.time()
-    rc, out = sh('/venv/bin/python check.py --all', cwd='/verif', timeout=900)
+    rc, out = sh('VERIF_REPO=%s VERIF_EVIDENCE_DIR=%s /venv/bin/python check.py --all' % (wt, evd), cwd='/verif', timeout=900)
+    shutil.rmtree(evd, ignore_errors=True)
     lines = [l for l in out.splitlines() if l.startswith(('VIOLATION', 'ANALYSIS-ERROR'))]
     detail = [l.strip() for l in out.splitlines() if l.startswith('  rule ') and ' at ' in l]
     meta['checks_exit'] = rc
@@ -53,12 +49,10 @@ try:
     meta['violation_detail'] = sorted(set(detail))[:12]
     meta['detected_by'] = sorted({l.split('replay=')[1].split('/')[-1].split('-')[1] for l in lines if 'replay=' in l})
     meta['detected'] = bool(lines) and rc == 1
-    meta['ran'].append('git -C /repo apply patch.diff; /venv/bin/python check.py --all -> exit %d, %d VIOLATION lines (%.0fs); git -C /repo checkout -- .' % (rc, len(lines), time.time() - t))
+    meta['ran'].append('changed scratch worktree: VERIF_REPO=<worktree> /venv/bin/python check.py --all -> exit %d, %d VIOLATION lines (%.0fs)' % (rc, len(lines), time.time() - t))
 finally:
-    sh('git -C /repo checkout -- .')
-    sh('rm -rf /verif/evidence/replay')
-# restore clean-tree evidence
-sh('/venv/bin/python check.py --all', cwd='/verif')
+    sh('git -C /repo worktree remove --force %s' % wt)
+    shutil.rmtree(wt, ignore_errors=True)
 with open(os.path.join(dst, 'meta.json'), 'w') as f:
     json.dump(meta, f, indent=1)
 print(json.dumps({k: meta[k] for k in ('id', 'demo_clean_exit', 'demo_changed_exit', 'detected', 'detected_by', 'violation_detail') if k in meta}, indent=1)[:3000])
